@@ -159,7 +159,11 @@ def run_multi_evict(case):
                           "transports_opened", "multi_evict_runs"]}
     sigs = []
 
+    extra = {}
+    extras = []
+
     async def one(n_idle, style, k):
+        extra.clear()
         net = simnet.Net()
         for i in range(n_idle + 1):
             endpoints.Origin(net, f"o{i}.test", 80)
@@ -179,6 +183,14 @@ def run_multi_evict(case):
         for c in pool.connections:
             owned |= owned_transports(c)
         orphans = [t.id for t in net.transports if not t.closed and t.id not in owned]
+        # for C05: the pool's own accounting, and whether its capacity is still there
+        from ..world import pool_counts, exc_name
+        extra["counts"] = pool_counts(pool)
+        extra["conns"] = [c.info() for c in pool.connections]
+        CALL.set("followup")
+        fu = await guarded(flavor, lambda: api.request("GET", f"http://o{n_idle}.test/again", headers=[("X-Token", "followup")],
+                                                       extensions={"timeout": {"pool": 1.0}}))
+        extra["followup"] = "ok" if fu.kind == "ok" and fu.value.status == 200 else (exc_name(fu.exc) if fu.kind == "exc" else fu.kind)
         await guarded(flavor, api.close_pool)
         still = [t.id for t in net.transports if not t.closed]
         return K, bool(fired), orphans, still, repr(out)
@@ -195,6 +207,7 @@ def run_multi_evict(case):
                     cnt["transports_opened"] += n_idle + 1
                     if not fired:
                         continue
+                    extras.append({"n_idle": n_idle, "style": style, "k": k, **extra})
                     cnt["cancels_fired"] += 1
                     cnt["oracle_quiescent_ownership"] += 1
                     cnt["oracle_closed_after_pool_close"] += 1
@@ -211,14 +224,16 @@ def run_multi_evict(case):
                             viol.append({"key": key, "what": f"{still}", "detail": ctx})
 
     run_flavor(flavor, None, main, seed=0)
-    return {"viol": viol, "counters": cnt, "sigs": sigs, "sample": None}
+    return {"viol": viol, "counters": cnt, "sigs": sigs, "sample": None, "extras": extras}
 
 
 def run_case(case):
     if case.get("realsock"):
         return run_realsock(case)
     if case.get("multi_evict"):
-        return run_multi_evict(case)
+        res = run_multi_evict(case)
+        res.pop("extras", None)
+        return res
     if case.get("window"):
         return run_window(case)
     return run_enumeration(case, judge, {"oracle_quiescent_ownership": 0, "oracle_closed_after_pool_close": 0,
